@@ -53,6 +53,7 @@ var nameCounter int
 // freshName replaces getRandomName (a 64-bit draw rendered in base 32): names
 // only need to be distinct, and are distinct for distinct draws.
 func freshName(rnd *mathrand.Rand) string {
+	rnd.Uint64() // the real function consumes one draw: keep the native replay's draw sequence aligned
 	nameCounter++
 	return "_garble" + string(rune('a'+nameCounter))
 }
